@@ -93,7 +93,7 @@ theorem stepE_inv {s0 s s' : Store α} {g : List GObj} (cm : Bool) (h : StoreInv
     obtain ⟨go, hg, hinv⟩ := storeInv_get h ho
     obtain ⟨gr, hgr, hinvr⟩ := storeInv_get h hr
     exact ⟨_, by simp [gstepOk, hg, hgr], storeInv_set h (inv_append hinv hinvr ho')⟩
-  | concat is =>
+  | concat is tgt =>
     simp only [stepE, Option.bind_eq_bind, Option.bind_eq_some_iff, Option.pure_def] at hs
     obtain ⟨objs, hobjs, ⟨res, args⟩, hc, hs'⟩ := hs
     simp only [Option.some.injEq] at hs'
@@ -104,7 +104,7 @@ theorem stepE_inv {s0 s s' : Store α} {g : List GObj} (cm : Bool) (h : StoreInv
     | nil => simp at hc
     | @cons first gfirst rest grest hf hrest =>
       simp only [Option.bind_eq_bind, Option.bind_eq_some_iff, Option.pure_def] at hc
-      obtain ⟨rd, _, hc⟩ := hc
+      obtain ⟨rd, hrd0, ot, hot, hc⟩ := hc
       split at hc
       · simp at hc
       rename_i hnc
@@ -112,17 +112,17 @@ theorem stepE_inv {s0 s s' : Store α} {g : List GObj} (cm : Bool) (h : StoreInv
       obtain ⟨aligned, hal, res', hres, hc⟩ := hc
       simp only [Option.some.injEq, Prod.mk.injEq] at hc
       obtain ⟨rfl, rfl⟩ := hc
-      obtain ⟨ha1, ha2⟩ := inv_alignAll hrest hal
+      obtain ⟨ha1, ha2⟩ := inv_alignAll ot hrest hal
       have hn : ∀ a ∈ aligned, a.nCond = first.nCond := by
         intro a ha
-        obtain ⟨r, hr, hnr⟩ := forall₂_mem_left ha2 ha
+        obtain ⟨r, hr, hnr, _⟩ := forall₂_mem_left ha2 ha
         simp only [Bool.not_eq_true', Bool.not_eq_false, List.all_eq_true, beq_iff_eq] at hnc
         have hnc' : ∀ r ∈ rest, r.nCond = first.nCond := by
           simpa using hnc
         rw [hnr]; exact hnc' r hr
-      have hres_inv := inv_concatResult hf ha1 hn hres
-      refine ⟨_, by simp only [gstepOk, hobjs, hgs, Option.bind_eq_bind, Option.bind_some,
-        Option.pure_def]; rfl, ?_⟩
+      have hres_inv := inv_concatResult hf ha1 hn ha2 hrd0 rfl hres
+      refine ⟨_, by simp only [gstepOk, hobjs, hgs, hot, Option.bind_eq_bind, Option.bind_some,
+        Option.pure_def, Option.getD_some]; rfl, ?_⟩
       cases cm
       · simpa using storeInv_append h hres_inv
       · simp only [if_true]
